@@ -130,13 +130,19 @@ def build_skeleton(sk, as_init=False):
     cond = B.argument(B.Tensor(np.bool_, ()))
     created = {}
     realized = collections.defaultdict(set)
+    default_args = []
 
     def scope_body(s, body_arg):
         # values created in this scope
         for j, (c, dep, uses) in enumerate(values):
             if c == s:
                 base = body_arg if dep else a
-                if j == 0 and not dep and as_init:
+                if j == 0 and not dep and as_init == 2:
+                    # an argument with a default value (graph input backed by an initializer): defined once, by the main graph
+                    from spox._graph import arguments as _arguments
+                    (x,) = _arguments(w_default=np.array([1, 2], F32))
+                    default_args.append(x)
+                elif j == 0 and not dep and as_init:
                     x = B.initializer(np.array([1, 2], F32))     # an initializer-backed weight: must be lifted like any other value
                 else:
                     x = op.relu(base) if j == 0 else op.neg(base)
@@ -177,7 +183,10 @@ def build_skeleton(sk, as_init=False):
     extra = None
     if 0 in created and not values[0][1] and realized[0]:
         extra = created[0]          # body-independent value: may also be requested directly in a second build
-    return {"a": a, "c": cond}, {"o": res[0]}, legal, extra
+    ins = {"a": a, "c": cond}
+    for x in default_args:
+        ins["w_default"] = x
+    return ins, {"o": res[0]}, legal, extra
 
 
 # ------------------------------------------------------------------------------------------------ direct oracle
@@ -196,7 +205,10 @@ def placement_oracle(m: onnx.ModelProto):
         return ("block", mm.group(1)) if mm else ("node", path, idx)
 
     def walk(g, path):
+        input_names = {i.name for i in g.input}
         for t in g.initializer:
+            if t.name in input_names:
+                continue     # the default of a graph input: it lives where the input lives
             u = ("initializer", path, t.name)
             group_path.setdefault(u, path)
             group_of[t.name] = u
@@ -216,6 +228,28 @@ def placement_oracle(m: onnx.ModelProto):
             uses[o.name].append((path, None))
 
     walk(m.graph, ("main",))
+    # every value is defined once in the whole model: a graph input (with or without default), an initializer or a node output
+    defs = collections.defaultdict(list)
+
+    def walk_defs(g, path):
+        names_here = {i.name for i in g.input}
+        for i in g.input:
+            defs[i.name].append("/".join(path) + ":input")
+        for t in g.initializer:
+            if t.name not in names_here:        # an initializer of the same graph under an input's name is that input's default
+                defs[t.name].append("/".join(path) + ":initializer")
+        for n in g.node:
+            for o in n.output:
+                if o:
+                    defs[o].append("/".join(path) + ":" + n.op_type)
+            for a in n.attribute:
+                if a.type == onnx.AttributeProto.GRAPH:
+                    walk_defs(a.g, path + (n.name + "." + a.name,))
+
+    walk_defs(m.graph, ("main",))
+    for v, where in defs.items():
+        if len(where) > 1:
+            problems.append(f"value {v!r} is emitted {len(where)} times: {where[:3]}")
     ext = collections.defaultdict(list)
     for v, us in uses.items():
         if v in group_of:
@@ -326,7 +360,7 @@ def run(run: Run) -> int:
     cases = []
     for ski, sk in enumerate(sks):
         try:
-            ins, outs, legal, extra = build_skeleton(sk, as_init=(ski % 4 == 1))
+            ins, outs, legal, extra = build_skeleton(sk, as_init=(2 if ski % 8 == 5 else ski % 4 == 1))
         except Exception as e:  # construction itself failed (not build): skip, counted
             continue
         meta = {"skeleton": [list(sk[0]), list(sk[1]), [[c, d, list(u)] for c, d, u in sk[2]]], "legal": legal}
